@@ -795,6 +795,11 @@ mod sync {
                                     }
                                 }
                                 #[cfg(ohkami_verif)] let _ = super::__verif_sync::sched(3);
+                                // the interrupt may have arrived between the check above and
+                                // the publication of the waker: then nobody will wake this task
+                                if CATCH.load(Ordering::SeqCst) {
+                                    return Poll::Ready(None)
+                                }
                                 Poll::Pending
                             }
                         }
